@@ -194,6 +194,7 @@ def run(ctx):
     files(ctx, n_files, viol)
     for key, lst in sorted(agg.items()):
         ctx.violation(key, "%s  [%d case(s)]" % (lst[0][0][:600], len(lst)), lst[0][1])
+    ctx.require(len(rules) >= 0.5 * n_rules, "only %d of %d generated rules are in the domain" % (len(rules), n_rules))
     ctx.extra.update({"rules": len(rules), "blocks": n_blocks, "files": n_files})
 
 
